@@ -278,6 +278,9 @@ func verifyServerExtensions(copts *compressionOptions, h http.Header) (*compress
 
 	_copts := *copts
 	copts = &_copts
+	// The server keeps its context unless its response says otherwise,
+	// whatever our offer asked for.
+	copts.serverNoContextTakeover = false
 
 	if hasDuplicateParams(ext.params) {
 		return nil, fmt.Errorf("WebSocket protcol violation: duplicate permessage-deflate parameter from server: %+v", ext.params)
